@@ -674,6 +674,9 @@ class FPNum:
             if (self.infinity): return self.s
             else: return -bref.s
 
+        # positive and negative zero denote the same value
+        if (self.m == 0 and bref.m == 0): return 0
+
         a = FPNum(self.s, self.e, self.m, self.p)
         b = FPNum(bref.s, bref.e, bref.m, bref.p)
 
